@@ -245,7 +245,8 @@ fn expr_cases(r: &mut Rng, n: usize) -> Vec<Case> {
         c.tags = vec!["stream:expression-core".into(), format!("expr-typecheck:{}", tc), format!("expr-eval:{}", if ev.starts_with("(ok") { "value" } else { &ev })];
         c.nontrivial = tc;
         c.show = format!("{} => {}", c.req, c.imp);
-        if tc && ev.starts_with("(err") {
+        // since /repo ab600c7 a data failure (division by zero, overflow) is reported as `Other`
+        if tc && ev.starts_with("(err") && TYPE_CLASS.contains(&&ev[5..ev.len() - 1]) {
             c.sig = Some(if applicable == Some(true) { format!("{}:operator-applicable", &ev[5..ev.len() - 1]) } else { format!("{}:expression-core", &ev[5..ev.len() - 1]) });
             c.impl_violation = Some(format!("accepted operator expression fails with a type-class error: {}", c.show));
         }
